@@ -31,6 +31,7 @@ var formNames = []string{"plain", "raw", "handler", "handlerRaw"}
 type docSpan struct{ start, end int }
 
 type stream struct {
+	cast  bool // the optional cast argument is passed to every decoder call (XML codecs)
 	codec int
 	data  []byte
 	docs  []docSpan
@@ -38,9 +39,12 @@ type stream struct {
 }
 
 // buildStream draws 1..5 documents and their separators.
-func buildStream(c *Ctx, codec int, maxDocs int) (*stream, *Violation) {
+func buildStream(c *Ctx, codec int, maxDocs int, castAllowed bool) (*stream, *Violation) {
 	t := c.T
-	s := &stream{codec: codec}
+	s := &stream{codec: codec, cast: codec != 2 && t.Draw(4) == 3}
+	if !castAllowed {
+		s.cast = false // the bulk handlers take no cast argument
+	}
 	n := 1 + t.Small(maxDocs)
 	var b strings.Builder
 	b.WriteString(interDocWS[t.Small(len(interDocWS))])
@@ -67,9 +71,9 @@ func buildStream(c *Ctx, codec int, maxDocs int) (*stream, *Violation) {
 		if v := safely(c, "model-decode", func() {
 			switch codec {
 			case 0:
-				m, err = mxj.NewMapXml(doc)
+				m, err = mxj.NewMapXml(doc, s.cast)
 			case 1:
-				m, err = mxj.NewMapXmlSeq(doc)
+				m, err = mxj.NewMapXmlSeq(doc, s.cast)
 			case 2:
 				m, err = mxj.NewMapJson(doc)
 			}
@@ -287,13 +291,13 @@ func execC13(c *Ctx, s *stream, form int, sch *ReadSched, stopAt int, render boo
 			if v := safely(c, tag, func() {
 				switch s.codec*2 + form {
 				case 0:
-					m, err = mxj.NewMapXmlReader(rd)
+					m, err = mxj.NewMapXmlReader(rd, s.cast)
 				case 1:
-					m, raw, err = mxj.NewMapXmlReaderRaw(rd)
+					m, raw, err = mxj.NewMapXmlReaderRaw(rd, s.cast)
 				case 2:
-					m, err = mxj.NewMapXmlSeqReader(rd)
+					m, err = mxj.NewMapXmlSeqReader(rd, s.cast)
 				case 3:
-					m, raw, err = mxj.NewMapXmlSeqReaderRaw(rd)
+					m, raw, err = mxj.NewMapXmlSeqReaderRaw(rd, s.cast)
 				case 4:
 					m, err = mxj.NewMapJsonReader(rd)
 				case 5:
@@ -434,13 +438,14 @@ func runC13(c *Ctx) *Violation {
 		form = form % 2
 	}
 	mode := t.Draw(8) // 0: enumerate single zero-read positions x EOF modes; 7,6: fault-injecting; else seeded schedule
-	s, v := buildStream(c, codec, 5)
+	s, v := buildStream(c, codec, 5, form < 2)
 	if v != nil {
 		return v
 	}
 	if s == nil {
 		return nil
 	}
+	c.Put("cast", s.cast)
 	stopAt := 0
 	if form >= 2 && t.Draw(2) == 1 {
 		stopAt = 1 + t.Draw(len(s.docs))
